@@ -20,7 +20,7 @@ RULE = (
     "(a) state_k (deep copy taken inside the callback) vs the result of a fresh run with maxiter=k, bitwise on x, fun, jac, nfev, njev, nit, sk, yk; (b) the retained live state and xk are "
     "unchanged when the run ends; (c) run with a False-returning callback vs run without callback, bitwise on result and evaluation log; (d) the objective raises at a drawn later call "
     "(crash), the harness restarts from the last retained state and compares the next iterate with the uninterrupted run. non-trivial = k>=2 and the state holds >=1 pair (for (d): the crash "
-    "falls inside a line search); distinct = distinct (run spec, k)"
+    "falls inside a line search); plus a dedicated generator in which the uninterrupted run and the restart share a maxfun only 1..4 evaluations above the count at the crash point (hard line-search families), so that the evaluation budget binds inside the next line search; distinct = distinct (run spec, k)"
 )
 ASSUMPTIONS = [
     "a crash is modelled by an exception raised from the user's objective at a later call; the process state the user keeps is the last callback state object itself (not a copy)",
@@ -115,6 +115,65 @@ def check(spec, stats=None):
         stats.case({"run": rspec}, False, ["no-callback-fired"])
 
 
+def check_tight_budget(spec, stats=None):
+    """Crash + restart when the evaluation budget is about to bind: the uninterrupted run and the run restarted
+    from the retained state get the *same* maxfun, chosen 1..4 evaluations above the count at the crash point, so
+    the next line search is cut by `maxfun - nfev` in both -- if that budget is derived from the same state."""
+    rspec = spec["run"]
+    prob = build(rspec["problem"])
+    cfg = dict(rspec["cfg"])
+    probe = run_min(prob, cfg, callback="passive")
+    if probe.exc is not None:
+        raise probe.exc
+    if len(probe.cb) < 2:
+        if stats is not None:
+            stats.case(spec, False, ["kind=tight-budget", "too-short"])
+        return
+    i = min(spec["i"], len(probe.cb) - 2)
+    kept = probe.cb[i]
+    k = kept["snap"]["nit"]
+    cfg2 = dict(cfg)
+    cfg2["maxfun"] = kept["snap"]["nfev"] + spec["delta"]
+    cfg2["maxiter"] = k + 1
+    # The tight maxfun is itself an argument of the run: it caps the number of line-search iterations of *earlier*
+    # iterations too (trial points that coincide with the memoised point cost no evaluation but count as
+    # iterations), so the run is redone under it and the retained state is taken from that run.
+    ref1 = run_min(prob, cfg2, callback="passive")  # uninterrupted, same arguments
+    if ref1.exc is not None:
+        raise ref1.exc
+    same_k = [c for c in ref1.cb if c["snap"]["nit"] == k]
+    if not same_k:
+        if stats is not None:
+            stats.case(spec, False, ["kind=tight-budget", "too-short"])
+        return
+    kept = same_k[0]
+    cfg0 = dict(cfg2)
+    cfg0["maxiter"] = k
+    ref0 = run_min(prob, cfg0)
+    if ref1.exc is not None or ref0.exc is not None:
+        raise (ref1.exc or ref0.exc)
+    d = states_equal(kept["snap"], ref0.res)
+    require(d is None, f"state-equals-maxiter-k-result[{d}]", f"tight budget: state of iteration {k} differs from run(maxiter={k}) in {d!r}")
+    rs = restart(prob, cfg2, kept["live"], k + 1)
+    if rs.exc is not None:
+        raise Violation("restart-from-callback-state", f"restart raised {type(rs.exc).__name__}: {rs.exc}")
+    if ref0.res["nit"] == k:
+        check_next(ref0.res, ref1.res, rs.res, "after-crash-tight-budget", ref1, rs, stats)
+    if stats is not None:
+        used = ref1.res["nfev"] - ref0.res["nfev"]
+        binding = used >= spec["delta"]
+        stats.case(spec, binding, ["kind=tight-budget", f"budget-binding={binding}"],
+                   sample={"family": rspec["problem"]["obj"].get("bench", rspec["problem"]["obj"]["family"]), "crash_after_iteration": k, "nfev_at_crash": kept["snap"]["nfev"],
+                           "maxfun": cfg2["maxfun"], "evaluations_in_next_iteration": used})
+
+
+@st.composite
+def tight_budget_strategy(draw):
+    r = draw(run_spec(families=("rosenbrock", "rosenbrock", "badscale", "sines", "bench", "qp_quartic"), n_max=6, jac_modes=("callable",), maxiter=(3, 20), maxfun=(400, 400),
+                      ftols=(0.0,), gtols=(1e-10,), narrow=draw(st.booleans())))
+    return {"run": r, "i": draw(st.integers(0, 18)), "delta": draw(st.sampled_from([1, 1, 2, 2, 3, 4]))}
+
+
 @st.composite
 def strategy(draw):
     r = draw(run_spec(families=ALL_FAMILIES, n_max=8, jac_modes=("callable",), maxiter=(1, 25), maxfun=(30, 400), small_ls=draw(st.booleans()),
@@ -125,7 +184,11 @@ def strategy(draw):
 
 def shard(ctx):
     ctx.hyp("crash-points", strategy(), check, ctx.pick(2500, 15000))
+    ctx.hyp("crash-with-tight-budget", tight_budget_strategy(), check_tight_budget, ctx.pick(3000, 40000))
 
 
 def replay(spec):
-    check(spec, None)
+    if "delta" in spec:
+        check_tight_budget(spec, None)
+    else:
+        check(spec, None)
